@@ -354,6 +354,16 @@ func visitInstr(fr *frame, instr ssa.Instruction) continuation {
 		*addr = zero(mustDeref(instr.Type()))
 
 	case *ssa.MakeSlice:
+		// sizes as the Go runtime treats them: beyond maxAlloc the program panics; merely huge
+		// allocations (which the runtime would hand out lazily) are beyond the engine
+		if n, l := asInt64(fr.get(instr.Cap)), asInt64(fr.get(instr.Len)); n < 0 || l < 0 || l > n || n > (1<<48)/16 {
+			if l < 0 || (l > n && n >= 0) || l > (1<<48)/16 {
+				panic("runtime error: makeslice: len out of range")
+			}
+			panic("runtime error: makeslice: cap out of range")
+		} else if n > 1<<24 {
+			panic(abort{kind: "inconclusive", msg: fmt.Sprintf("allocation of %d slice elements is beyond the engine", n)})
+		}
 		slice := make([]value, asInt64(fr.get(instr.Cap)))
 		tElt := instr.Type().Underlying().(*types.Slice).Elem()
 		for i := range slice {
